@@ -477,14 +477,13 @@ def ob_f(ob):
 
 
 # ---- shared obligation: the autodiff force of an excited state is -d/dx of the energy this expression returns, so it equals the reported Etot's derivative only if the expression is the response-matrix quadratic form ----
-from . import C16 as _C16_mod  # noqa: E402
-
-
-@obligation(PID, "g", title="[shared with C16.c] " + [e for e in __import__("engine.ob", fromlist=["REGISTRY"]).REGISTRY["C16"] if e[1] is _C16_mod.ob_c][0][3])
+@obligation(PID, "g", title='[shared with C16.c] excitation energy re-evaluated for the total energy: CIS w = X.AX, RPA w = X.(AX+BY) + Y.(BX+AY) (the quadratic form of the response matrix), for arbitrary amplitudes and sigma vectors')
 def ob_g_shared(ob):
     """the autodiff force of an excited state is -d/dx of the energy this expression returns, so it equals the reported Etot's derivative only if the expression is the response-matrix quadratic form"""
+    from . import C16 as _m  # imported lazily: the harness modules share obligations in both directions
+
     ob.note("this obligation is the one registered as C16.c; it is also decided here because the autodiff force of an excited state is -d/dx of the energy this expression returns, so it equals the reported Etot's derivative only if the expression is the response-matrix quadratic form")
-    _C16_mod.ob_c(ob)
+    _m.ob_c(ob)
 
 
 def replay_force_branches():
